@@ -168,9 +168,9 @@ func templateScenario(r *sim.Rand, g *world.Gen) []sim.Op {
 	// some scenarios are a mail merge: one data object with one logo, reused for every render, only the variables set again
 	shared, picFmt := btoiP(r.Chance(0.35)), r.Intn(3)
 	for d := 1; d <= n; d++ {
-		pic := []int{r.Intn(3), 5, 5, 7000 + d}
+		pic := world.TplImageSpec(r, []int{r.Intn(3), 5, 5, 7000 + d})
 		if shared == 1 {
-			pic = []int{picFmt, 5, 5, 7000}
+			pic = append([]int{picFmt, 5, 5, 7000}, pic[4:]...)
 		}
 		data := &world.TData{Vars: map[string]any{"name": fmt.Sprintf("N%d", d), "city": "C", "title": "T"}, Images: map[string][]int{"pic": pic}}
 		ops = append(ops, sim.Op{K: "tpl.render", D: d, I: []int{0, 1, 0, shared}, S: []sim.Str{sim.Str(data.JSON())}})
